@@ -11,6 +11,7 @@ import (
 	"testing"
 	"time"
 
+	"verif/sim/simnet"
 	"verif/sim/sipwire"
 )
 
@@ -113,6 +114,15 @@ func genFramingPlan(seed uint64, tier string) *Plan {
 			op.I["gapMs"] = g.pick2(900, 6000, 31000, 70000, 70000, 1300000)
 		}
 		p.Ops = append(p.Ops, op)
+	}
+	if g.chance(15) && len(p.Ops) > 0 {
+		// the first stream does not come over a connection the proxy accepted but over one it dialled itself: a client
+		// request is routed to a TCP next hop, and that hop sends the stream back over the connection - and closes it
+		// right behind the last byte
+		p.Ops[0].S = map[string]string{"outbound": "1"}
+		p.Ops[0].I["gapMs"] = 0
+		p.Variant = "outbound-stream"
+		c.TCPSinks = append(c.TCPSinks, "10.3.0.1:5060")
 	}
 	if !tcpBackend && g.chance(40) {
 		// the UDP backends answer every request; the answers travel back over the stream's own connection while the
@@ -238,6 +248,38 @@ func execFraming(t *testing.T, p *Plan) *Result {
 			if op.Kind != "stream" {
 				continue
 			}
+			if op.S["outbound"] == "1" {
+				// open the way: a request with a Route to the TCP next hop
+				b := &sipwire.Builder{Start: "OPTIONS sip:peer@far.test SIP/2.0"}
+				b.Add("Via", "SIP/2.0/TCP 10.1.0.9:5060;branch=z9hG4bKopen"+strconv.Itoa(i))
+				b.Add("Route", "<sip:10.3.0.1:5060;transport=tcp;lr>")
+				b.Add("From", "<sip:a@x.test>;tag=1")
+				b.Add("To", "<sip:peer@far.test>")
+				b.Add("Call-ID", "open-"+strconv.Itoa(i))
+				b.Add("CSeq", "1 OPTIONS")
+				b.Add("X-Sim-Id", "open"+strconv.Itoa(i))
+				oc, err := w.TCPConnTo("opener", "10.1.0.9", 0, hostPort(l.Addr, l.TCP))
+				if err != nil {
+					w.K.Failures = append(w.K.Failures, "harness: connect: "+err.Error())
+					return
+				}
+				oc.Write(b.Bytes())
+				w.K.Settle(5 * time.Second)
+				var hop *simnet.TCPEnd
+				for _, e := range w.N.Conns {
+					if !e.Proxy && e.Peer.Proxy && e.Local.String() == "10.3.0.1:5060" && !e.Closed() {
+						hop = e
+					}
+				}
+				if hop == nil {
+					w.stat("skipped:no-outbound-connection")
+					op.S["outbound"] = "skipped"
+					continue
+				}
+				hop.WriteCutsAndClose(op.Data, op.Cuts)
+				w.stat("probe:stream-over-dialled-connection-closed-behind-last-byte")
+				continue
+			}
 			c, err := w.TCPConnTo(op.Conn, op.SrcIP, 0, hostPort(l.Addr, l.TCP))
 			if err != nil {
 				w.K.Failures = append(w.K.Failures, "harness: connect: "+err.Error())
@@ -260,7 +302,7 @@ func execFraming(t *testing.T, p *Plan) *Result {
 		ems := w.decodeEmissions(0)
 		for i := range p.Ops {
 			op := &p.Ops[i]
-			if op.Kind != "stream" {
+			if op.Kind != "stream" || op.S["outbound"] == "skipped" {
 				continue
 			}
 			// the messages of the stream, read by the harness's own reader
